@@ -7,7 +7,7 @@
 (* e  = a state-changing entry point (names below), executed with ONE      *)
 (*      fixed well-formed payload (harness/auth.go: authEvm / authMsgs)    *)
 (* c  = the caller identity                                                *)
-(*      [kind, via, from, sender, origin, claimed, key, sig]               *)
+(*      [kind, via, from, sender, origin, claimed, key, sig, carrier]      *)
 (*      kind = "evm"    precompile call; from = contract.CallerAddress,    *)
 (*                      sender = the address the calling contract reports   *)
 (*                      as its msg.sender (first ABI argument of the AVS    *)
@@ -40,7 +40,7 @@ EXTENDS Naturals, Sequences, FiniteSets, TLC
 
 CONSTANTS DEVS
 
-AllDevs == {"DEV_OracleSigIgnored", "DEV_ChallengeNoOwner", "DEV_OperatorBySender"}
+AllDevs == {"DEV_OracleSigIgnored", "DEV_ChallengeNoOwner", "DEV_OperatorBySender", "DEV_OracleSignerInfoCount"}
 ASSUME DEVS \subseteq AllDevs
 
 (***************************************************************************)
@@ -90,11 +90,22 @@ OwnersOf(st, a) == IF Registered(st, a) THEN st.avs[a].owners ELSE {}
 NextTaskId(st, t) == LET S == {x.n : x \in {y \in st.tasks : y.t = t}} IN
                      IF S = {} THEN 1 ELSE 1 + (CHOOSE n \in S : \A m \in S : m <= n)
 
-\* a cosmos signature that the SDK accepts for the claimed principal
-SigOK(c) == c.sig = "valid" /\ c.key = c.claimed
-\* the public key a transaction carries: the signer's own for a genuine signature, the claimed
-\* principal's for the bad-signature classes
-CarriedPub(c) == IF c.sig = "valid" THEN c.key ELSE c.claimed
+\* c.carrier = "before" | "after": the transaction ALSO contains an honest message of ANOTHER signer
+\* (the attacker: account a2 with a native delegation / validator k3 with a price report), correctly
+\* signed by that signer, placed before / after the message under test.  (claimed, key, sig) always
+\* describe the signer slot of the message under test = the i-th signer of a multi-signer tx.
+\* Signature classes: valid | forged | zero | empty | missing | nopub (no public key in the signer
+\* info, c.key signs) | noinfo (NO signer info for this signer, arbitrary bytes in its signature
+\* slot) | othersig (the carrier signer's valid signature copied into this slot).
+CarrierAcct == "a2"
+CarrierVal  == "k3"
+\* a signature of the claimed principal itself (an account's key is also found on chain: nopub)
+SigOK(c)    == c.sig \in {"valid", "nopub"} /\ c.key = c.claimed
+\* the fee-less oracle path has no account: the consensus key must be in the signer info
+OraSigOK(c) == c.sig = "valid" /\ c.key = c.claimed
+\* the public key a signer slot carries: the signer's own for a genuine signature, none for
+\* nopub / noinfo, the claimed principal's for the other bad-signature classes
+CarriedPub(c) == IF c.sig = "valid" THEN c.key ELSE IF c.sig \in {"nopub", "noinfo"} THEN "-" ELSE c.claimed
 
 (***************************************************************************)
 (* WHO MAY - from the statement of C10                                      *)
@@ -107,7 +118,7 @@ StmtAuthorized(st, e, c) ==
     \* operator-bound precompile methods: the operator acted for must be the signer of the tx
     [] e \in OPP  -> c.kind = "evm" /\ c.sender = c.origin
     [] e \in OPM  -> c.kind = "cosmos" /\ SigOK(c) /\ c.claimed = Principal(e)
-    [] e \in ORA  -> c.kind = "oracle" /\ SigOK(c) /\ c.claimed \in st.vals
+    [] e \in ORA  -> c.kind = "oracle" /\ OraSigOK(c) /\ c.claimed \in st.vals
     \* the property restricts parameter changes on mainnet chain ids only
     [] e \in PAR  -> \/ ~st.mainnet
                      \/ c.claimed = "gov" /\ (c.kind = "gov" \/ SigOK(c))
@@ -121,7 +132,13 @@ AnteOK(c) == SigOK(c)
 \* oracle branch: public key must hash to the signer and the signature must verify (since fix
 \* 873f403; before it the result of VerifySignature was discarded = DEV_OracleSigIgnored, kept as a
 \* switch so that the repaired defect stays expressible in the model)
+\* DEV_OracleSignerInfoCount: both oracle branches iterate over the SIGNER INFOS, not over the
+\* required signers, and never compare the two counts: a signer without signer info is not checked
+\* at all (its signature slot only has to exist: ValidateBasic counts signatures).  With the carrier
+\* behind the message the remaining signer info is compared with the wrong signer and the tx fails.
 OracleAnteOK(c) ==
+  IF c.sig = "noinfo" THEN "DEV_OracleSignerInfoCount" \in DEVS /\ c.carrier # "after"
+  ELSE
   /\ c.sig \notin {"missing", "nopub"}     \* no signatures: ValidateBasic; no public key: nil dereference, recovered
   /\ CarriedPub(c) = c.claimed
   /\ (c.sig = "valid" \/ "DEV_OracleSigIgnored" \in DEVS)
@@ -136,7 +153,7 @@ CodeAccepts(st, e, c) ==
     [] e \in OPP  -> \/ "DEV_OperatorBySender" \in DEVS                 \* operator := args[0], whoever calls
                      \/ c.sender = c.origin
     \* SubmitTaskResult names the operator twice: FromAddress (the signer) and Info.OperatorAddress
-    [] e = "SubmitTaskResult" -> c.sig = "valid" /\ c.key = c.claimed
+    [] e = "SubmitTaskResult" -> SigOK(c)
     [] e \in OPM  -> AnteOK(c)
     [] e \in ORA  -> OracleAnteOK(c)
     [] e \in PAR  -> /\ (c.kind = "gov" \/ AnteOK(c))
@@ -234,7 +251,7 @@ Unchanged(st) == [st |-> st, ok |-> FALSE, mods |-> {}]
 \* SubmitTaskResult's tx signer is whoever signs (FromAddress); the operator is named inside.
 AnteAccepts(st, e, c) ==
   CASE e \in ORA -> OracleAnteOK(c) /\ c.claimed \in DOMAIN st.nonce /\ st.nonce[c.claimed] = 0
-    [] e = "SubmitTaskResult" -> c.sig = "valid"
+    [] e = "SubmitTaskResult" -> c.sig = "valid" \/ SigOK(c)
     [] OTHER -> AnteOK(c)
 
 \* the code, step by step: authorisation check, then the keeper's own preconditions
@@ -242,11 +259,30 @@ AnteAccepts(st, e, c) ==
 \* (challengeWrongHash was one until fix 4ac3ef5)
 SilentOK(st, e, c) == FALSE
 
+\* the honest carrier message of a multi-message tx
+CarrierFeasible(st, e) == e \in ORA => (CarrierVal \in DOMAIN st.nonce /\ st.nonce[CarrierVal] = 0 /\ CarrierVal \in st.vals)
+CarrierEffect(st, e) ==
+  IF e \in ORA THEN [st |-> [st EXCEPT !.nonce[CarrierVal] = 1], mods |-> {"oracle"}]
+  ELSE [st |-> [st EXCEPT !.natdel = @ \cup {CarrierAcct}], mods |-> {"assets", "delegation", "bank"}]
+
+\* one message of a tx: [ok, st, mods]
+MsgStep(st, isCarrier, e, c) ==
+  IF isCarrier THEN (IF CarrierFeasible(st, e) THEN LET r == CarrierEffect(st, e) IN [ok |-> TRUE, st |-> r.st, mods |-> r.mods]
+                     ELSE [ok |-> FALSE, st |-> st, mods |-> {}])
+  ELSE (IF Feasible(st, e, c) THEN LET r == Effect(st, e, c) IN [ok |-> TRUE, st |-> r.st, mods |-> r.mods]
+        ELSE [ok |-> FALSE, st |-> st, mods |-> {}])
+
 Call(st, e, c) ==
-  IF c.via = "check" THEN [Unchanged(st) EXCEPT !.ok = AnteAccepts(st, e, c)]
+  IF c.via = "check" THEN [Unchanged(st) EXCEPT !.ok = AnteAccepts(st, e, c) /\ (c.carrier # "-" => CarrierFeasible(st, e))]
   ELSE IF ~CodeAccepts(st, e, c) THEN Unchanged(st)
-  ELSE IF ~Feasible(st, e, c) THEN [Unchanged(st) EXCEPT !.ok = SilentOK(st, e, c)]
-  ELSE LET r == Effect(st, e, c) IN [st |-> r.st, ok |-> TRUE, mods |-> r.mods]
+  ELSE IF c.carrier = "-" THEN
+       (IF ~Feasible(st, e, c) THEN [Unchanged(st) EXCEPT !.ok = SilentOK(st, e, c)]
+        ELSE LET r == Effect(st, e, c) IN [st |-> r.st, ok |-> TRUE, mods |-> r.mods])
+  \* a transaction is atomic: every signer verified by the ante chain, then the messages in order;
+  \* the first failing message discards the whole tx
+  ELSE LET m1 == MsgStep(st, c.carrier = "before", e, c)
+           m2 == MsgStep(m1.st, c.carrier = "after", e, c)
+       IN IF m1.ok /\ m2.ok THEN [st |-> m2.st, ok |-> TRUE, mods |-> m1.mods \cup m2.mods] ELSE Unchanged(st)
 
 (***************************************************************************)
 (* the property, as predicates over an observed (or modelled) step          *)
@@ -276,8 +312,10 @@ BoundToPrincipal(pre, post, e, c) ==
     [] e = "SetConsKey" -> /\ \A o \in DOMAIN post.ckey : o # c.key => (o \in DOMAIN pre.ckey /\ post.ckey[o] = pre.ckey[o])
                            /\ post.opt = pre.opt /\ post.ops = pre.ops
     [] e = "SubmitTaskResult" -> \A x \in post.results \ pre.results : x.o = c.key
-    [] e \in {"MsgDelegation", "MsgUndelegation"} -> (post.natdel \ pre.natdel) \cup (pre.natdel \ post.natdel) \subseteq {c.key}
-    [] e \in ORA -> \A k \in DOMAIN post.nonce : k # c.key => (k \in DOMAIN pre.nonce /\ post.nonce[k] = pre.nonce[k])
+    \* (the honest carrier of a multi-message tx acts for its own signer)
+    [] e \in {"MsgDelegation", "MsgUndelegation"} ->
+           (post.natdel \ pre.natdel) \cup (pre.natdel \ post.natdel) \subseteq {c.key} \cup (IF c.carrier = "-" THEN {} ELSE {CarrierAcct})
+    [] e \in ORA -> \A k \in DOMAIN post.nonce : (k # c.key /\ ~(c.carrier # "-" /\ k = CarrierVal)) => (k \in DOMAIN pre.nonce /\ post.nonce[k] = pre.nonce[k])
     [] e \in PAR -> \A m \in PMODS : (m # ModOf(e) /\ ~(ModOf(e) = "assets" /\ m = "assets")) => post.pv[m] = pre.pv[m]
     [] OTHER -> TRUE
 
